@@ -1353,8 +1353,16 @@ class Compiler:
         name = "__content"
         body = self._engine(node.expression, store(name))
 
-        if node.translate:
+        if node.translate is True:
             body += emit_translate(name, name)
+        elif node.translate:
+            # An explicit message id; the value is the default text.
+            body += [ast.If(
+                test=template("NAME is not None", NAME=name, mode="eval"),
+                body=emit_translate(
+                    name, ast.Constant(node.translate), default=name),
+                orelse=[],
+            )]
 
         if node.char_escape:
             body += template(
